@@ -33,8 +33,8 @@ REQUIRED = {}
 
 def strategy(tier):
     if tier == "quick":
-        return model_spec(dims=(2, 2, 2, 2, 2, 3), simplex=False, nonmatching=True)
-    return model_spec(dims=(2, 2, 3), simplex=True, nonmatching=True)
+        return model_spec(dims=(2, 2, 2, 2, 2, 3), simplex=False, nonmatching=True, units=True)
+    return model_spec(dims=(2, 2, 3), simplex=True, nonmatching=True, units=True)
 
 
 def warmup():
